@@ -23,9 +23,10 @@ from .c03_util import attr_leaves, dec, dec_leaves, enc, lark_leaves, lark_tree_
 
 ID = "C03"
 DRIVER = "drv_c03"
-LEAN_TARGETS = ["PharmpyProofs.C03.Properties", "drv_c03"]
-PROPERTIES = ["PharmpyProofs/C03/Properties.lean"]
-LEAN_SOURCES = ["PharmpyModel/C03/*.lean", "PharmpyProofs/C03/*.lean", "Drivers/C03.lean"]
+LEAN_TARGETS = ["PharmpyProofs.C03.Properties", "PharmpyProofs.C03.RecordProperties", "drv_c03"]
+PROPERTIES = ["PharmpyProofs/C03/Properties.lean", "PharmpyProofs/C03/RecordProperties.lean"]
+LEAN_SOURCES = ["PharmpyModel/C03/*.lean", "PharmpyProofs/C03/*.lean", "Drivers/C03.lean", "PharmpyModel/C02/Record.lean", "PharmpyModel/C02/Lcs.lean",
+                "PharmpyProofs/C02/RecordLemmas.lean", "PharmpyProofs/C02/RecordProperties.lean", "PharmpyProofs/C02/Lemmas.lean", "PharmpyProofs/C02/Properties.lean"]
 TIME_LIMIT = {"quick": 900, "thorough": 3000}
 CASE_CPU_LIMIT = 60
 RULE = ("kind=text: control streams generated record by record from the record grammars (PROBLEM, INPUT, DATA, SUBROUTINES, "
@@ -95,7 +96,7 @@ def gen_cases(rng: random.Random, n: int, tier: str):
     for i in range(n):
         r = rng.random()
         seed = rng.randrange(1 << 30)
-        if r < 0.45:
+        if r < 0.40:
             text = G.gen_stream(rng)
             tags = ["src:generated"]
             if rng.random() < 0.5:
@@ -109,7 +110,10 @@ def gen_cases(rng: random.Random, n: int, tier: str):
                 text, mt = G.mutate(rng, text)
                 tags += ["mut:" + t for t in mt]
             out.append({"kind": "text", "text": text, "gen": tags, "origin": nm, "seed": seed})
-        elif r < 0.84:
+        elif r < 0.81:
+            text, steps = G.gen_chain_model(rng)
+            out.append({"kind": "chain", "text": text, "steps": steps, "gen": ["src:generated-chain-model"], "seed": seed})
+        elif r < 0.87:
             text = G.gen_model(rng)
             tags = ["src:generated-model"]
             text, mt = G.layout_mutate(rng, text)
@@ -153,6 +157,25 @@ def corpus_cases():
 
 
 def shrink(case):
+    if case["kind"] == "chain":
+        st = case["steps"]
+        for i in range(len(st)):          # fewer steps, fewer edits per step
+            if len(st) > 1:
+                c = dict(case); c["steps"] = st[:i] + st[i + 1:]; yield c
+            if len(st[i]) > 1:
+                for j in range(len(st[i])):
+                    c = dict(case); c["steps"] = st[:i] + [st[i][:j] + st[i][j + 1:]] + st[i + 1:]; yield c
+        lines = case["text"].splitlines(True)
+        # one line at a time, a block IF only as a whole (an emptied block is not a valid model)
+        i = 0
+        while i < len(lines):
+            j = i + 1
+            if re.match(r"\s*IF\b.*\bTHEN\s*(;.*)?$", lines[i], flags=re.I):
+                while j < len(lines) and not re.match(r"\s*END\s*IF\b", lines[j - 1], flags=re.I):
+                    j += 1
+            c = dict(case); c["text"] = "".join(lines[:i] + lines[j:]); yield c
+            i = j
+        return
     if case["kind"] not in ("text", "model"):
         return
     t = case["text"]
@@ -192,6 +215,7 @@ class _ReProxy:
 
 
 _RE_PROXY = None
+_US_CALLS = None     # when a list: every CodeRecord.update_statements call is recorded (edit-chain cases)
 
 
 def worker_init():
@@ -207,6 +231,24 @@ def worker_init():
     from pharmpy.model.external.nonmem.nmtran_parser import NMTranControlStream, NMTranParser  # noqa
     from pharmpy.model.external.nonmem.records import factory  # noqa
     from pharmpy.model.external.nonmem.records.raw_record import RawRecord  # noqa
+    global CodeRecord, Statements
+    from pharmpy.model import Statements
+    from pharmpy.model.external.nonmem.records.code_record import CodeRecord
+    if not getattr(CodeRecord.update_statements, "_c03_hook", False):
+        _orig = CodeRecord.update_statements
+
+        def _hooked(self, new, rvs=None, trans=None):
+            try:
+                old = self._statements
+            except AttributeError:
+                old = self.statements
+            before = (list(self.root.children), [tuple(e) for e in self._index], list(old))
+            res = _orig(self, new, rvs, trans)
+            if _US_CALLS is not None and res is not self:
+                _US_CALLS.append((self, before, list(new), rvs, trans, res))
+            return res
+        _hooked._c03_hook = True
+        CodeRecord.update_statements = _hooked
     global _RE_PROXY
     from pharmpy.model.external.nonmem import nmtran_parser as _np
     if not isinstance(_np.re, _ReProxy):
@@ -249,6 +291,8 @@ def run_case(case, drv):
         return run_text(case, drv)
     if kind == "model":
         return run_model(case, drv)
+    if kind == "chain":
+        return run_chain(case, drv)
     if kind == "names":
         return run_names(case, drv)
     if kind == "ignored":
@@ -758,3 +802,223 @@ def apply_edit(model, edit, rng):
     new_stmt = Assignment.create(Expr.symbol("ZZNEW"), last.symbol * 2)
     m2 = model.replace(statements=sts + new_stmt)
     return m2, {"PRED", "ERROR"}, "appending the statement ZZNEW = 2*" + str(last.symbol)
+
+
+# ---------------------------------------------------------------- edit chains (update_source after every edit, on the regenerated object)
+
+CODE_KINDS = ("PK", "PRED", "ERROR", "DES")
+
+
+def _code_lines(recs):
+    return [ln for r in recs if _kind(r) in CODE_KINDS for ln in str(r).splitlines()[1:]]
+
+
+def _is_nonstmt_line(ln):
+    t = ln.strip()
+    return t == "" or t.startswith(";") or t.startswith('"')
+
+
+def _expresses(ln, names):
+    m = re.match(r"\s*([A-Za-z_]\w*)\s*=", ln)
+    return bool(m) and m.group(1).upper() in names
+
+
+def _gap_nodes(children, index):
+    covered = set()
+    for ni, nj, _, _ in index:
+        covered.update(range(ni, nj))
+    return [c for i, c in enumerate(children) if i not in covered]
+
+
+def _rec_inv(children, index, nstmts):
+    pos, si = 0, 0
+    for ni, nj, s0, s1 in index:
+        if not (pos <= ni <= nj and s0 == si and si <= s1):
+            return False
+        pos, si = nj, s1
+    return pos <= len(children) and si == nstmts and sum(max(1, s1 - s0) for _, _, s0, s1 in index) == nstmts
+
+
+def check_update_calls(calls, drv, k, mon, tags, label):
+    """Every recorded CodeRecord.update_statements call: the clause on the real objects (nodes outside the index are
+    exactly preserved, in order; the invariant holds again) and K (children + _index vs the Lean updateStatements)."""
+    for rec, (children, index, old), new, rvs, trans, newrec in calls:
+        tags.append("us-call")
+        lab = f"{label} ${rec.name}"
+        inv_old = _rec_inv(children, index, len(old))
+        if not inv_old:
+            tags.append("us-call-precondition-false")
+        new_children, new_index = list(newrec.root.children), [tuple(e) for e in newrec._index]
+        if inv_old:
+            go, gn = _gap_nodes(children, index), _gap_nodes(new_children, new_index)
+            if len(go) != len(gn) or any(a is not b for a, b in zip(go, gn)):
+                mon.append({"cls": "record-nonstatement-nodes-not-preserved",
+                            "what": f"{lab}: the nodes outside the index (comment / verbatim / blank lines) were "
+                                    f"{[str(x) for x in go]} before update_statements and are {[str(x) for x in gn]} after it "
+                                    f"(new index {new_index})"[:700]})
+            if not _rec_inv(new_children, new_index, len(new)):
+                mon.append({"cls": "record-index-invariant-broken",
+                            "what": f"{lab}: the index {new_index} of the updated record is not a partition accounting for its "
+                                    f"{len(new)} statements ({len(new_children)} nodes)"})
+        if drv is None:
+            continue
+        nodeid = {id(c): i for i, c in enumerate(children)}
+        pool = []
+
+        def code_of(st):
+            for i, t in enumerate(pool):
+                if t == st:
+                    return i
+            pool.append(st)
+            return len(pool) - 1
+        oi, ni_ = [code_of(st) for st in old], [code_of(st) for st in new]
+        lens, defined = [], set()
+        for st, c in zip(new, ni_):
+            try:
+                lens.append([c, len(rec._statement_to_nodes(set(defined), st, rvs, trans))])
+            except Exception:
+                lens.append([c, 1])
+            if hasattr(st, "symbol"):
+                defined.add(st.symbol)
+        verb = [i for i, c in enumerate(children) if getattr(c, "rule", None) == "verbatim"]
+        fallback = verb[0] if verb else len(children)
+        ans = drv.ask(["recupdate", list(range(len(children))), [list(e) for e in index], fallback, oi, ni_, lens])
+        real_children = ["G" if id(c) not in nodeid else str(nodeid[id(c)]) for c in new_children]
+        real_index = [[str(x) for x in e] for e in new_index]
+        if ans[0] != "ok":
+            k.append(f"{lab}: model {ans}, code completed")
+            continue
+        m_children = ["G" if int(x) >= 1000000 else x for x in ans[1]]
+        if m_children != real_children:
+            k.append(f"{lab}: new children: model {m_children} code {real_children}")
+        if ans[2] != real_index:
+            k.append(f"{lab}: new _index: model {ans[2]} code {real_index}")
+        if (ans[5] == "true") != inv_old:
+            k.append(f"{lab}: invariant of the old record: model {ans[5]} harness {inv_old}")
+        if ans[5] == "true" and (ans[3] != ans[4] or ans[6] != "true"):
+            k.append(f"{lab}: Lean model contradicts its theorem (gaps {ans[3]} -> {ans[4]}, invariant {ans[6]})")
+
+
+def run_chain(case, drv):
+    global _US_CALLS
+    rng = random.Random(case["seed"])
+    T = case["text"]
+    k, mon = [], []
+    tags = list(case.get("gen", []))
+    try:
+        model = parse_model(T)
+        prev_recs = _records(T)
+    except Exception as e:
+        tags.append("model-refused:" + _exc(e))
+        return {"k": k, "mon": mon, "tags": tags, "nontrivial": False}
+    if not model.random_variables.etas:
+        tags.append("model-without-etas(skipped)")
+        return {"k": k, "mon": mon, "tags": tags, "nontrivial": False}
+    prev_code = T
+    done = 0
+    zz = 0
+    rec_mon = []        # record-level failures are listed after the textual ones of the same case
+    for n, step in enumerate(case["steps"], start=1):
+        sts = list(model.statements)
+        code_lines = _code_lines(prev_recs)
+
+        def editable(st):
+            if not isinstance(st, Assignment) or st.expression.is_piecewise():
+                return False
+            nm = st.symbol.name.upper()
+            if sum(1 for x in sts if isinstance(x, Assignment) and x.symbol == st.symbol) != 1:
+                return False
+            return sum(1 for ln in code_lines if _expresses(ln, {nm})) == 1 and nm not in ("F",)
+        cands = [i for i, st in enumerate(sts) if editable(st)]
+        if not cands:
+            tags.append("chain-no-editable-statement")
+            break
+        edited, gone, added, what = set(), set(), set(), []
+        new = list(sts)
+        for e in step:
+            live = [i for i, st in enumerate(new) if isinstance(st, Assignment) and st.symbol.name.upper() not in edited
+                    and any(st is sts[j] for j in cands)]
+            if not live:
+                continue
+            i = live[e[1] % len(live)]
+            st = new[i]
+            nm = st.symbol.name.upper()
+            if e[0] == "mod":
+                expr = {"*2": st.expression * 2, "+1": st.expression + 1, "*WGT": st.expression * Expr.symbol("WGT"),
+                        "-0.5": st.expression - 0.5}[e[2]]
+                new[i] = Assignment.create(st.symbol, expr)
+                edited.add(nm)
+                what.append(f"modify {nm}")
+            elif e[0] == "del":
+                if nm in ("Y", "S1", "V", "CL", "IPRED"):
+                    continue
+                del new[i]
+                edited.add(nm)
+                gone.add(nm)
+                what.append(f"delete {nm}")
+            else:
+                zz += 1
+                znm = f"ZZ{zz}"
+                new.insert(i + 1, Assignment.create(Expr.symbol(znm), st.symbol * 2))
+                edited.add(znm)
+                added.add(znm)
+                what.append(f"insert {znm} after {nm}")
+        if not what:
+            continue
+        label = f"step {n} ({', '.join(what)})"
+        _US_CALLS = []
+        try:
+            model2 = model.replace(statements=Statements(new)).update_source()
+            code = model2.code
+        except Exception as e:
+            tags.append("chain-step-refused:" + _exc(e))
+            _US_CALLS = None
+            continue
+        calls, _US_CALLS = _US_CALLS, None
+        done += 1
+        tags.append("chain-step")
+        for w in what:
+            tags.append("chain-edit:" + w.split()[0])
+        check_update_calls(calls, drv, k, rec_mon, tags, label)
+        # ---- the frame clause on the text
+        try:
+            new_recs = _records(code)
+        except Exception as e:
+            mon.append({"cls": "chain-unparseable", "what": f"{label}: regenerated code not accepted ({_exc(e)})"})
+            break
+        for kd in sorted(changed_kinds(prev_recs, new_recs) - set(CODE_KINDS)):
+            mon.append({"cls": "chain-" + change_class(kd, prev_recs, new_recs),
+                        "what": f"{label}: the ${kd} records (unrelated kind) changed; " + first_diff(prev_code, code)})
+        old_lines, new_lines = _code_lines(prev_recs), _code_lines(new_recs)
+        protected = [ln for ln in old_lines if not _expresses(ln, edited)]
+        if not _is_subseq(protected, new_lines):
+            norm = lambda ln: ln.lstrip(" \t") if _is_nonstmt_line(ln) else ln
+            it = iter(new_lines)
+            lost = [ln for ln in protected if not any(ln == y for y in it)]
+            if _is_subseq([norm(x) for x in protected], [norm(x) for x in new_lines]):
+                # every line is there, in order; only the blanks in front of a comment / verbatim / blank line differ
+                cls = "chain-nonstatement-line-reindented"
+                it = iter(new_lines)
+                lost = [ln for ln in protected if _is_nonstmt_line(ln) and ln not in new_lines]
+            elif all(_is_nonstmt_line(x) for x in lost):
+                cls = "chain-nonstatement-line-lost"
+            else:
+                cls = "chain-unedited-statement-changed"
+            mon.append({"cls": cls, "what": f"{label}: lines of the code records that do not express {sorted(edited)} were not preserved "
+                        f"exactly and in order; lost or moved: {lost[:4]!r}; " + first_diff(prev_code, code)})
+        o_ns, n_ns = [x for x in old_lines if _is_nonstmt_line(x)], [x for x in new_lines if _is_nonstmt_line(x)]
+        if o_ns != n_ns and _is_subseq(o_ns, n_ns) is True and len(n_ns) > len(o_ns):
+            mon.append({"cls": "chain-nonstatement-line-added", "what": f"{label}: comment / verbatim / blank lines were added: "
+                        f"{len(o_ns)} -> {len(n_ns)}; " + first_diff(prev_code, code)})
+        for nm in sorted(edited):
+            cnt = sum(1 for ln in new_lines if _expresses(ln, {nm}))
+            want = 0 if nm in gone else 1
+            stale = [ln for ln in new_lines if _expresses(ln, {nm}) and ln in old_lines and nm not in added]
+            if cnt != want or (stale and nm not in gone):
+                mon.append({"cls": "chain-stale-or-duplicate-statement",
+                            "what": f"{label}: {cnt} line(s) assign {nm} after the edit (expected {want}); stale old line(s): {stale!r}; "
+                                    + first_diff(prev_code, code)})
+        model, prev_recs, prev_code = model2, new_recs, code
+    if done >= 2:
+        tags.append("chain-2+steps")
+    return {"k": k, "mon": mon + rec_mon, "tags": tags, "nontrivial": done >= 2}
